@@ -155,6 +155,7 @@ class Engine:
         self.event_index = {}     # (kind, block, si) -> one Ev instance (for evidence)
         self.obligations = set()  # (rule, what, block) evaluated on at least one path
         self.truncated = False
+        self.max_seconds = 90
         self.unfollowed = []      # constructs met on an explored path that the analysis does not model: no verdict
         self.drv_at_return = {}   # call site -> variants ("0" None / "1" Some) its last result had in states reaching a return
         self.return_states = 0
@@ -176,8 +177,11 @@ class Engine:
         seen.add(key0)
         work.append(key0)
         self.parent[key0] = None
+        import time as _time
+        t_start = _time.time()
         while work:
-            if len(seen) > self.max_states:
+            # budgets: states, and wall-clock time per entry point (a run that cannot finish gives no verdict -- it never hangs)
+            if len(seen) > self.max_states or (len(seen) % 512 == 0 and _time.time() - t_start > self.max_seconds):
                 self.truncated = True
                 break
             b, st = work.popleft()
@@ -302,7 +306,8 @@ class Engine:
                         val = dict(cur.val)
                 if not d["p"]:
                     if d["l"] in self.bi.dyn:
-                        val[d["l"]] = e
+                        # an expression that keeps growing around a loop (`deepest = deepest.max(1 + f(x))`) is cut off
+                        val[d["l"]] = e if depth(e) <= 150 else ("unk", "wide%d" % d["l"])
                     # aggregate construction of handles
                     if e[0] == "agg" and e[2] in HANDLE_ADTS and s["rv"]["k"] == "agg":
                         cur = cur.replace(val=fz(val))
